@@ -28,8 +28,10 @@ from vlib.llsym import kern
 
 
 def _Integer():
-    from Crypto.Math.Numbers import Integer
-    return Integer
+    # the pure-Python back-end is the code under test here, in the symbolic run and in replay / validation alike
+    # (Numbers.Integer would pick GMP or the custom C back-end when running on the real library)
+    from Crypto.Math._IntegerNative import IntegerNative
+    return IntegerNative
 
 
 def _v(x):
